@@ -10,6 +10,7 @@ REGISTRY = {
     "C07": "engines.extendsplit_checks",
     "C12": "engines.function_sim",
     "C13": "engines.stop_checks",
+    "C17": "engines.de_reuse_sim",
     "C18": "engines.dataset_sim",
     "C19": "engines.classification_sim",
     "C14": "engines.resume_checks",
